@@ -24,12 +24,15 @@ C  == <<"c">>
 NsURIs == IF UriSet = "builtin" THEN {A, ProvNS, XsdNS}
           ELSE IF UriSet = "hash" THEN {A, <<"a", "hash">>, C}      \* "http://a.example/" and "http://a.example/#"
           ELSE {A, AB, C}
-Locals == {<<"x">>, <<"b", "x">>}
+(* in the run over the built-in namespaces the local parts contain a colon (ex:u:x is a legal spelling *)
+(* of the name with local part "u:x"; a 'prefix:local' string is cut at its FIRST colon)               *)
+Lx == IF UriSet = "builtin" THEN <<"u:x">> ELSE <<"x">>
+Locals == {Lx, <<"b">> \o Lx}
 Scopes == {"doc", "bun"}
 
 StrForms == {StrPL(p, l) : p \in UsePrefixes \ {""}, l \in Locals}
             \cup {StrBare(l) : l \in Locals}
-            \cup {StrUri(u \o <<"x">>) : u \in NsURIs}
+            \cup {StrUri(u \o Lx) : u \in NsURIs}
 
 PreActs == IF Preset = "dflt"
            THEN << [op |-> "SetDefault", h |-> "doc", u |-> C], [op |-> "SetDefault", h |-> "bun", u |-> C] >>
